@@ -27,12 +27,15 @@ def do_case(ctx, inp):
     tr = snap(r)
     ctx.op({"op": "reduce", "t": t}, {"t": tr})
     free = {n: b for n, b in lv.items() if b[0] != b[1]}
-    for _ in range(inp.get("n_interp", 60 if ctx.quick else 300)):
+    for j in range(inp.get("n_interp", 60 if ctx.quick else 300)):
         I = {}
         for n, (lo, hi) in free.items():
             x = ctx.rng.random()
-            if x < 0.7:
-                c = ctx.rng.randint(lo, hi); I[n] = (c, c)
+            if j < 4:
+                # the first few interpretations are complete: every free leaf a constant
+                c = pick_in(ctx.rng, lo, hi); I[n] = (c, c)
+            elif x < 0.7:
+                c = pick_in(ctx.rng, lo, hi); I[n] = (c, c)
             elif x < 0.85:
                 y = ctx.rng.randint(lo, hi); I[n] = (y, ctx.rng.randint(y, hi))
         rI = render_interp(ctx.rng, I)
@@ -54,6 +57,10 @@ def run(ctx):
     n_models = (200 if ctx.quick else 900) * (3 if ctx.search else 1)
     for _ in range(n_models):
         a, o, t = gen_valid(ctx.rng, ctx.quick, prefix_p=0.2)
-        for _ in range(3):
+        # reduce() straight on the model as built (sub-propositions pre-fixed by construction reach reduce() as nodes; an
+        # assume() before it would already have replaced them by their variable) …
+        do_case(ctx, {"ast": a, "A": {}})
+        # … and after assumptions
+        for _ in range(2):
             A = gen_interp(ctx.rng, t, total=False, in_bounds=True, ranges=ctx.rng.random() < 0.3)
             do_case(ctx, {"ast": a, "A": {k: list(v) for k, v in A.items()}})
